@@ -536,9 +536,11 @@ class Pipeline:
                 # alone. Neither look up nor store such a result.
                 cache_key = None
             else:
+                # `func._bound` must not enter the key: a name in `root_args` is read
+                # (unbound) by some function upstream, which receives the keyword value.
                 cache_key = compute_cache_key(
                     func.output_name,
-                    self._func_defaults(func) | flat_scope_kwargs | func._bound,
+                    self._func_defaults(func) | flat_scope_kwargs,
                     root_args,
                 )
             return_now, result_from_cache = get_result_from_cache(
